@@ -89,16 +89,40 @@ def run(ctx):
                 s['markers'] = {'0/0': [1, 2, 3, 4, 5, 6]}
                 s['qgenes'] = rng.sample(range(1, 7), 6)
                 s['Q'] = [[rng.randint(0, 4) for _ in range(6)] for _ in s['cells']]
+            if i % 8 == 7:
+                # a middle level of a >=3-level taxonomy is dropped and the votes below it are split: the inferred
+                # level repeats ALL numbers (aggregate probability included) of the voted level below it
+                while True:
+                    t = maptrace.random_tree(rng, 4, 7, 4)
+                    if len(t['hier']) >= 3:
+                        break
+                s = maptrace.gen_scenario(rng, tree=t, ncell=rng.randint(3, 8), G=6)
+                s['cfg'].update(drop=rng.choice(t['hier'][1:-1]), flatten=False, fnum=rng.randint(2, 4),
+                                B=rng.randint(4, 9))
+                s['qgenes'] = rng.sample(range(1, 7), 6)
+                s['Q'] = [[rng.randint(0, 4) for _ in range(6)] for _ in s['cells']]
+                s['markers'] = {k: [1, 2, 3, 4, 5, 6] for k in s['markers']}
             scns.append(s)
         results = campaign(ctx, scns, 'MapRun_Trace_c03', focus='C03')
         # raw counts incl. a cell without any count (constant profile: every correlation 0).  The votes are not
         # recomputed by TLC here (log2(CPM+1) of the counts is not an integer); records and contract are.
         raws = []
-        for i in range(10 if quick else 120):
-            s = maptrace.gen_scenario(rng, max_levels=3, max_leaves=6, min_leaves=2, ncell=rng.randint(2, 8))
+        for i in range(20 if quick else 160):
+            s = maptrace.gen_scenario(rng, max_levels=3, max_leaves=6, min_leaves=2, ncell=rng.randint(3, 8),
+                                      **({'G': rng.randint(7, 12)} if i % 2 else {}))
             s['cfg'].update(norm='raw', B=rng.randint(1, 8))
+            if i % 2 and max(s['qgenes']) <= s['G']:
+                s['qgenes'].append(s['G'] + 1)
             s['Q'] = [[rng.randint(0, 30) for _ in s['qgenes']] for _ in s['cells']]
             s['Q'][rng.randrange(len(s['Q']))] = [0] * len(s['qgenes'])
+            if i % 2:
+                # "flat" cells: the same non-zero count in every gene the reference knows, arbitrary counts in
+                # the others (a constant, non-integer log2CPM profile over any drawn subset: correlation 0 with
+                # every leaf, never an undefined one)
+                for _ in range(rng.randint(1, 2)):
+                    v = rng.randint(1, 6)
+                    s['Q'][rng.randrange(len(s['Q']))] = [v if g <= s['G'] else rng.randint(0, 400)
+                                                          for g in s['qgenes']]
             raws.append(s)
         results += campaign(ctx, raws, 'MapRun_Trace_c03_raw', votes=False)
     nviol, blocked = report_for(ctx, results, PID)
